@@ -19,7 +19,7 @@ func init() {
 			"C16.openopts — the output and input sites agree on the bbolt options that decide what a commit leaves in the file (NoFreelistSync: a file written without a freelist page is rewritten by the first read-write open with default options; PageSize); FreelistType is not compared, it only selects the in-memory free page tracker; " +
 			"C16.flags — in openfile.OpenFile the hook returned for FailIfFileExists calls os.OpenFile with flags|O_EXCL (so an existing file of any content makes the open fail before anything is written), the one for FailIfFileDoesntExist with flags&^O_CREATE, and FailIfFileExists is tested first; " +
 			"C16.readonly — from the read entry points (OpenIndex, OpenIndexFromBoltDatabase, all index options, Execute, GetSchema, Close, the sql driver's connection/statement methods, the gRPC handler, `updog schema`) no call resolves to a bbolt write API (Update, Batch, Begin(writable), Commit, Put, Delete, CreateBucket*, DeleteBucket, sequences) or to a file-mutating os call. " +
-			"C16.noclobber — no os call that removes, truncates, renames or rewrites a path is applied to an index output path (path of an exclusive-create bbolt.Open, filename of NewIndexWriter) unless the same call of the function created the file (dominated by the successful exclusive open); scratch files from os.CreateTemp are exempt. " +
+			"C16.noclobber — no os call that removes, truncates, renames or rewrites a path is applied to an index output path (path of an exclusive-create bbolt.Open, filename of NewIndexWriter) unless the same call of the function created the file (dominated by the successful exclusive open), or ownership is tracked soundly: the call is guarded by an ownership flag that belongs to an object or variable allocated during this very call, is set only after the exclusive create of that object's path succeeded and is never copied (a flag kept in the writer across Flush calls does not count), or sits in a cleanup closure made after the create; scratch files from os.CreateTemp are exempt. " +
 			"NOT decided: byte-for-byte equality as such; that bbolt.Open in read-write mode does not modify a well-formed file and that O_EXCL is honoured by the OS (trusted).",
 		assumptions: []string{"bbolt.Open(read-write) does not write to a well-formed file", "O_CREATE|O_EXCL semantics of the OS", "call graph over-approximates the calls that can happen"},
 	})
@@ -225,6 +225,13 @@ func boltOpenSites(c *Ctx) []openSite {
 					}
 					// every hook that is assigned has to be an openfile hook, and they have to be built from the same options
 					hook, ex, nex := openHookOf(c, fs.st.Val, 3)
+					if !hook {
+						// a function of the module around the openfile hook that also records ownership (method value or
+						// function literal that sets a `created` flag), rules_ag21.go
+						if ex2, nex2, isW := hookWrapper(c, fs.st.Val, call.Call.Args[0]); isW {
+							hook, ex, nex = true, ex2, nex2
+						}
+					}
 					nHooks++
 					switch {
 					case nHooks == 1:
@@ -821,7 +828,9 @@ var pathMutators = map[string][]int{
 // noClobberRule: no call in non-test module code removes, truncates, renames or rewrites a path that is an index output
 // path (the path of a bbolt.Open with the exclusive-create hook, or the filename argument of NewIndexWriter), unless the
 // file was created by this very call of the function (the mutation is dominated by the successful exclusive open of the
-// same path: cleanup of one's own partial output). Scratch files (os.CreateTemp) and unrelated paths are accepted.
+// same path: cleanup of one's own partial output), or ownership of the file is established by the prover of rules_ag21.go
+// (an ownership flag of a per-call object, a cleanup closure made after the create). Scratch files (os.CreateTemp) and
+// unrelated paths are accepted.
 func noClobberRule(c *Ctx, rule string) {
 	// output paths: fields / values feeding the path of exclusive-create opens and of NewIndexWriter
 	outFields := map[*types.Var]bool{}
@@ -881,6 +890,7 @@ func noClobberRule(c *Ctx, rule string) {
 	}
 	n := 0
 	idx := map[string]int{}
+	var prover *ownProver
 	for _, fn := range c.w.ModFuncs {
 		allInstrs(fn, func(i ssa.Instruction) {
 			cc := callCommon(i)
@@ -923,7 +933,14 @@ func noClobberRule(c *Ctx, rule string) {
 				if own {
 					continue
 				}
-				c.r.bad(rule, key, shortName(name)+" is applied to an index output path that this call did not create itself: a file that existed before Flush can be removed, truncated or replaced", []string{pos})
+				// … or ownership is tracked: a flag set where the exclusive create succeeded, a cleanup made after it (rules_ag21.go)
+				if prover == nil {
+					prover = newOwnProver(c)
+				}
+				if prover.owned(i, arg) {
+					continue
+				}
+				c.r.bad(rule, key, shortName(name)+" is applied to an index output path that this call did not create itself: a file that existed before Flush can be removed, truncated or replaced"+prover.why(), []string{pos})
 				return
 			}
 			c.r.ok(rule, key, "path is a scratch file, not an output path, or a file this call created exclusively", pos)
